@@ -160,3 +160,94 @@ Proof.
   unfold accept_state, mon. rewrite <- (rev_involutive t) at 2.
   rewrite (fold_left_rev_right (fun e m => hmon false m e)). reflexivity.
 Qed.
+
+(* ---- a card that is streaming blocks (multiple-block read) -------------------------------- *)
+(* everything about a card except its queue, phase, tick and frame buffer *)
+Definition core_eq (a b : card) : Prop :=
+  k_kind a = k_kind b /\ k_csd a = k_csd b /\ k_tim a = k_tim b /\ c_mem a = c_mem b /\
+  c_idle a = c_idle b /\ c_crc a = c_crc b /\ c_app a = c_app b /\ c_init_left a = c_init_left b /\
+  c_reading a = c_reading b.
+
+Lemma core_eq_refl a : core_eq a a.
+Proof. repeat split. Qed.
+Lemma core_eq_trans a b c : core_eq a b -> core_eq b c -> core_eq a c.
+Proof. unfold core_eq. intros (?&?&?&?&?&?&?&?&?) (?&?&?&?&?&?&?&?&?). repeat split; congruence. Qed.
+
+Definition stream_phase (p : phase) : Prop := p = PIdle \/ exists b, p = PNextBlock b.
+
+(* the card after driving one byte, before it looks at MOSI *)
+Definition adv (c : card) : card :=
+  match c_out c with
+  | _ :: rest => set_out c rest (c_phase c)
+  | [] => match c_phase c with
+          | PNextBlock b =>
+              if b <? nblocks c then
+                match FF (t_nac (k_tim c) (c_tick c)) ++ data_packet (c_mem c b) with
+                | _ :: rest => set_out (tick c) rest (PNextBlock (b + 1))
+                | [] => c
+                end
+              else c
+          | _ => c
+          end
+  end.
+
+Lemma adv_props c : stream_phase (c_phase c) ->
+  stream_phase (c_phase (adv c)) /\ core_eq (adv c) c /\ c_fbuf (adv c) = c_fbuf c /\
+  (c_tick (adv c) = c_tick c \/ c_tick (adv c) = c_tick c + 1).
+Proof.
+  intros Hs. unfold adv. destruct (c_out c) as [|x rest].
+  - destruct Hs as [Hp|[b Hp]]; rewrite Hp.
+    + split; [left; exact Hp|]. split; [apply core_eq_refl|]. split; [reflexivity|left; reflexivity].
+    + destruct (b <? nblocks c).
+      * destruct (FF _ ++ data_packet _) as [|m rest].
+        -- split; [right; exists b; exact Hp|]. split; [apply core_eq_refl|]. split; [reflexivity|left; reflexivity].
+        -- split; [right; exists (b + 1); reflexivity|]. split; [repeat split|]. split; [reflexivity|right; reflexivity].
+      * split; [right; exists b; exact Hp|]. split; [apply core_eq_refl|]. split; [reflexivity|left; reflexivity].
+  - split; [exact Hs|]. split; [repeat split|]. split; [reflexivity|left; reflexivity].
+Qed.
+
+Lemma card_byte_stream c m : stream_phase (c_phase c) -> exists x, card_byte c m = (feed_frame (adv c) m, x).
+Proof.
+  intros Hs. unfold card_byte, adv. destruct (c_out c) as [|x rest]; [|eexists; reflexivity].
+  destruct Hs as [Hp|[b Hp]]; rewrite Hp; [eexists; reflexivity|].
+  destruct (b <? nblocks c); [|eexists; reflexivity].
+  destruct (FF _ ++ data_packet _); eexists; reflexivity.
+Qed.
+
+(* six frame bytes arriving at a streaming (or idle) card *)
+Lemma frame_received_stream c b0 b1 b2 b3 b4 b5 :
+  stream_phase (c_phase c) -> c_fbuf c = [] -> N.land b0 192 = 64 ->
+  exists c6, fst (card_bytes c [b0;b1;b2;b3;b4;b5]) = on_frame c6 [b0;b1;b2;b3;b4;b5] /\
+             core_eq c6 c /\ (c_tick c <= c_tick c6 <= c_tick c + 6).
+Proof.
+  intros Hs Hf H0.
+  (* one step: a byte appended to a frame buffer of length < 5 *)
+  assert (Step : forall c f x, stream_phase (c_phase c) -> c_fbuf c = f -> f <> [] -> Nat.eqb (length (f ++ [x])) 6 = false ->
+            exists c', fst (card_byte c x) = c' /\ stream_phase (c_phase c') /\ c_fbuf c' = f ++ [x] /\
+                       core_eq c' c /\ (c_tick c <= c_tick c' <= c_tick c + 1)).
+  { intros c' f x Hs' Hf' Hne Hl. destruct (card_byte_stream c' x Hs') as [y E]. rewrite E. cbn [fst].
+    destruct (adv_props c' Hs') as (P1 & P2 & P3 & P4).
+    unfold feed_frame. rewrite P3, Hf'. destruct f; [congruence|]. rewrite Hl.
+    eexists. split; [reflexivity|]. cbn [c_phase c_fbuf set_fbuf c_tick].
+    repeat split; try apply P2; try assumption; lia. }
+  destruct (card_byte_stream c b0 Hs) as [y0 E0]. destruct (adv_props c Hs) as (P1 & P2 & P3 & P4).
+  cbn [card_bytes]. rewrite E0. unfold feed_frame at 1. rewrite P3, Hf.
+  apply N.eqb_eq in H0. rewrite H0.
+  set (c1 := set_fbuf (adv c) [b0]).
+  assert (S1 : stream_phase (c_phase c1)) by exact P1.
+  assert (K1 : core_eq c1 c) by exact P2.
+  assert (T1 : c_tick c <= c_tick c1 <= c_tick c + 1) by (cbn [c1 c_tick set_fbuf]; lia).
+  destruct (Step c1 [b0] b1 S1 eq_refl ltac:(discriminate) eq_refl) as (c2 & E2 & S2 & F2 & K2 & T2).
+  destruct (card_byte c1 b1) as [cc2 m1]. cbn [fst] in E2. subst cc2.
+  destruct (Step c2 _ b2 S2 F2 ltac:(discriminate) eq_refl) as (c3 & E3 & S3 & F3 & K3 & T3).
+  destruct (card_byte c2 b2) as [cc3 m2]. cbn [fst] in E3. subst cc3.
+  destruct (Step c3 _ b3 S3 F3 ltac:(discriminate) eq_refl) as (c4 & E4 & S4 & F4 & K4 & T4).
+  destruct (card_byte c3 b3) as [cc4 m3]. cbn [fst] in E4. subst cc4.
+  destruct (Step c4 _ b4 S4 F4 ltac:(discriminate) eq_refl) as (c5 & E5 & S5 & F5 & K5 & T5).
+  destruct (card_byte c4 b4) as [cc5 m4]. cbn [fst] in E5. subst cc5.
+  destruct (card_byte_stream c5 b5 S5) as [y5 E6]. destruct (adv_props c5 S5) as (Q1 & Q2 & Q3 & Q4).
+  rewrite E6. cbn [card_bytes fst]. unfold feed_frame. rewrite Q3, F5. cbn [app length Nat.eqb].
+  exists (adv c5). split; [reflexivity|]. split.
+  - repeat (eapply core_eq_trans; [eassumption|]). apply core_eq_refl.
+  - lia.
+Qed.
